@@ -54,7 +54,7 @@ def make_run_shard(profile, classify, hooks=(), bulk_share=0.0, max_ops_quick=25
         max_ops = spec.get("max_ops", max_ops_quick)
         strat = gen_ops.history(spec.get("profile", profile), max_ops)
         if spec.get("bulk"):
-            strat = gen_ops.bulk_history()
+            strat = gen_ops.bulk_history(spec.get("bulk_points", 25))
 
         def check(ops):
             ls = run_history(ops, ctx, hooks, configs=configs, pre=pre, post=post)
@@ -123,5 +123,9 @@ def std_shards(tier, n_quick, n_thorough, max_ops_quick=25, max_ops_thorough=60,
         sp = {"n": n_quick if tier == "quick" else n_thorough, "max_ops": max_ops_quick if tier == "quick" else (max_ops_thorough if i % 2 else max_ops_quick)}
         if i < bulk:
             sp["bulk"] = True
+            if tier == "thorough" and i % 2 == 1:
+                # larger data sets: 50-150 points (index structures with many entries per key, long runs of equal timestamps)
+                sp["bulk_points"] = 150
+                sp["n"] = max(20, sp["n"] // 12)
         out.append(sp)
     return out
